@@ -119,7 +119,15 @@ func stdioStress(c *hk.Ctx) {
 					srv.SendRequest(cctx, &mcp.JSONRPCRequest{JSONRPC: "2.0", Request: mcp.Request{Method: "roots/list"}})
 				}()
 			}
-			return mcp.NewTextResult("echo:" + n + strings.Repeat("x", int(n[len(n)-1])%64)), nil
+			// sizes across the 4 KiB (pipe / bufio) and 64 KiB boundaries, mixed with small frames
+			pad := int(n[len(n)-1]) % 64
+			switch n[len(n)-1] % 5 {
+			case 1:
+				pad = 4096 + int(n[len(n)-1])
+			case 3:
+				pad = 66000
+			}
+			return mcp.NewTextResult("echo:" + n + strings.Repeat("x", pad)), nil
 		})
 		pr, pw := io.Pipe()
 		out := &ampWriter{}
